@@ -333,6 +333,40 @@ def gen_arrays(rep, tier):
                     els = [scale_el(e, 0.1) for e in els]   # not dyadic-friendly: outside the regime
                     tag += '-decimal'
                 out.append((kind, st, els, rng.randint(0, 2), tag))
+    # (b2) elements that are finite in ONE dimension only and are the extreme there
+    #      (Point(nan, 8); a line whose x values are all non-finite): total_bounds counts their
+    #      finite coordinate while a spatial index treats the row as all-NaN, so anything that
+    #      takes the default extent from the index instead of the array shows here.
+    nan = float('nan')
+    out.append(('point', 'float64', [[0, 0], [4, 3], [nan, 8], None], 0, 'partial'))
+    out.append(('point', 'float64', [[nan, -5], [1, 1], [2, 2]], 0, 'partial'))
+    out.append(('point', 'float64', [[9, nan], [0, 0], [1, 1], [nan, nan]], 0, 'partial'))
+    out.append(('line', 'float64', [[0, 0, 4, 3], [nan, 8, nan, 6], [1, 1, 2, nan]], 0, 'partial'))
+    out.append(('multipoint', 'float64', [[0, 0, 4, 4], [float('inf'), 8, float('-inf'), 9]], 0, 'partial'))
+    out.append(('polygon', 'float64', [[[0, 0, 4, 0, 4, 3, 0, 0]], [[nan, 8, nan, 9, nan, 8]]], 0, 'partial'))
+    out.append(('multipolygon', 'float64', [[[[0, 0, 4, 0, 4, 4, 0, 0]]], [[[12, nan, 16, nan, 12, nan]]]], 0,
+                'partial'))
+    npart = 5 if tier == 'quick' else 60
+    for kind in G.KINDS:
+        for st in ('float64', 'float32'):
+            for _ in range(npart):
+                width, height = 1 << rng.randint(1, 4), 1 << rng.randint(1, 4)
+                x0, y0 = rng.randint(-8, 8), rng.randint(-8, 8)
+                els = [fit(G.rand_element(rng, kind, lo=0, hi=max(width, height), nan_p=0.0),
+                           x0, y0, width, height) for _ in range(rng.choice([1, 2, 3, 6]))]
+                for _ in range(rng.choice([1, 1, 2])):
+                    axis = rng.randint(0, 1)                      # the axis that stays finite
+                    beyond = rng.choice([-1, 1]) * rng.choice([1, 2, 4, 8])
+                    far = (x0 + (width if beyond > 0 else 0) + beyond) if axis == 0 \
+                        else (y0 + (height if beyond > 0 else 0) + beyond)
+                    bad = rng.choice([nan, nan, float('inf'), float('-inf')])
+                    pts = []
+                    for k in range(3):
+                        v = far + (k % 2) * (1 if beyond > 0 else -1)
+                        pts += [v, bad] if axis == 0 else [bad, v]
+                    els.append(partial_element(kind, pts))
+                rng.shuffle(els)
+                out.append((kind, st, els, rng.randint(0, 1), 'partial'))
     # (c) the same kind of data far from the origin: power-of-two extents 1, 2, 4, 8, ... at
     #     power-of-two offsets 2^10 .. 2^40 (both signs, both axes independently); projected
     #     coordinates with a large false easting look like this.  A relative-tolerance test of
@@ -368,6 +402,19 @@ def gen_arrays(rep, tier):
                 els = [translate_el(e, ox, oy) for e in els]
                 out.append((kind, st, els, rng.randint(0, 1), tag, (ox, oy, width, height)))
     return out
+
+
+def partial_element(kind, pts):
+    """an element of the kind through the given interleaved points (3 of them)"""
+    if kind == 'point':
+        return pts[:2]
+    if kind in ('multipoint', 'line'):
+        return pts
+    if kind == 'ring':
+        return pts + pts[:2]
+    if kind in ('multiline', 'polygon'):
+        return [pts + pts[:2]]
+    return [[pts + pts[:2]]]
 
 
 def translate_el(el, dx, dy):
@@ -471,7 +518,11 @@ def run(rep):
                 'power-of-two extents 1..64 at power-of-two offsets 2^10..2^40 (both signs, axes '
                 'independent; total_bounds = own / exact frame / inner / wide / degenerate); every 6th call '
                 'and every offset case is repeated on data + total_bounds translated by +-2^10..2^36 '
-                '(identical distances required in the exact regime); total_bounds default / own / power-of-two '
+                '(identical distances required in the exact regime); arrays of every kind with elements finite '
+                'in one dimension only that are the extreme there, and every 8th other array, go through index '
+                'histories (fresh -> build_sindex with several page sizes / .sindex, array, GeoSeries, '
+                'GeoDataFrame column: default-bounds distances unchanged and equal to total_bounds=own); '
+                'total_bounds default / own / power-of-two '
                 'box / degenerate in x, y, both / reversed / disjoint / inexact, passed as ' +
                 ', '.join(SEQ_FORMS) + '; p in 1..31 (seeded, every value used); one evaluation = one '
                 'hilbert_distance call; non-trivial = at least one row answered by the model '
@@ -496,6 +547,11 @@ def run(rep):
             rep.count('bounds_error:' + type(e).__name__)
             continue
         rep.count(kind)
+        nhist = rep.hist.get('arrays_seen', 0)
+        rep.count('arrays_seen')
+        if tag == 'partial' or tag in ('nan', 'far', 'single-point') or nhist % 8 == 0:
+            sindex_history(rep, rng, {'kind': kind, 'subtype': st, 'elements': els, 'derivation': desc,
+                                      'tb_label': 'default', 'tb_form': None, 'tb_values': None}, arr)
         for variant in tb_variants(rng, arr, tag, frame):
             label, vals = variant[0], variant[1]
             pcycle += 1
@@ -743,6 +799,85 @@ def translation(rep, rng, meta, kind, st, els, desc, bounds, tbobj, vals, p, res
                       {**meta, 'translation': [dx, dy], 'row': i, 'impl': res, 'translated': r2})
 
 
+def sindex_history(rep, rng, meta, arr, p=None):
+    """default-bounds distances do not depend on whether (and how) a spatial index was built:
+    fresh array, then build_sindex with several page sizes / .sindex, through the array, a GeoSeries
+    and a GeoDataFrame column; always equal to the explicit total_bounds=arr.total_bounds call"""
+    from spatialpandas import GeoSeries, GeoDataFrame
+    if len(arr) == 0:
+        return
+    p = p or rng.choice([1, 2, 4, 7, 10, 15, 20, 31])
+    meta = {**meta, 'p': p}
+
+    def fresh():
+        a = type(arr)(arr.data, dtype=arr.dtype)
+        return a
+
+    def hd(obj, **kw):
+        try:
+            return [int(x) for x in np.asarray(obj.hilbert_distance(p=p, **kw)).tolist()]
+        except Exception as e:
+            return 'raised ' + type(e).__name__
+
+    a0 = fresh()
+    if getattr(a0, '_sindex', None) is not None:
+        rep.count('fresh_array_has_index')
+    base = hd(a0)
+    explicit = hd(a0, total_bounds=tuple(a0.total_bounds))
+    rep.evaluations += 2
+    rep.count('sindex_histories')
+    if base != explicit:
+        rep.violation('default-bounds', 'default total_bounds differs from passing the array\'s own',
+                      {**meta, 'impl': base, 'explicit': explicit})
+        return
+    steps = [('array.build_sindex()', {}), ('array.build_sindex(page_size=2)', {'page_size': 2}),
+             ('array.build_sindex(page_size=3)', {'page_size': 3}),
+             ('array.build_sindex(page_size=16, p=4)', {'page_size': 16, 'p': 4}), ('array.sindex', None)]
+    for name, kw in steps:
+        a = fresh()
+        before = hd(a)
+        try:
+            if kw is None:
+                a.sindex
+            else:
+                a.build_sindex(**kw)
+        except Exception as e:      # building the index is C03's business
+            rep.count('build_sindex_raised:' + type(e).__name__)
+            continue
+        after = hd(a)
+        after_explicit = hd(a, total_bounds=tuple(a.total_bounds))
+        rep.evaluations += 3
+        if getattr(a, '_sindex', 1) is None:
+            rep.count('index_not_kept')
+        if not (before == base and after == base and after_explicit == base):
+            rep.violation('index-dependence', f'hilbert_distance with default total_bounds changes after {name} '
+                                              '(the extent must come from the array, not from the index)',
+                          {**meta, 'history': name, 'before_index': before, 'after_index': after,
+                           'explicit_own_bounds': after_explicit})
+            return
+    # GeoSeries and GeoDataFrame column with a built index
+    try:
+        s = GeoSeries(fresh(), index=list(range(3, 3 + len(arr))))
+        s1 = hd(s)
+        s.build_sindex(page_size=rng.choice([2, 5, 512]))
+        s2 = hd(s)
+        df = GeoDataFrame({'geometry': GeoSeries(fresh()), 'v': list(range(len(arr)))})
+        d1 = hd(df.geometry)
+        df.build_sindex(page_size=rng.choice([2, 5, 512]))
+        d2 = hd(df.geometry)
+        d3 = hd(df['geometry'])
+        d4 = hd(df.geometry.array)
+    except Exception as e:
+        rep.count('frame_history_raised:' + type(e).__name__)
+        return
+    rep.evaluations += 6
+    if not (s1 == base and s2 == base and d1 == base and d2 == base and d3 == base and d4 == base):
+        rep.violation('index-dependence', 'GeoSeries / GeoDataFrame column: hilbert_distance with default '
+                                          'total_bounds changes once the spatial index is built',
+                      {**meta, 'history': 'series/frame build_sindex', 'array': base, 'series_before': s1,
+                       'series_after': s2, 'frame_before': d1, 'frame_after': d2})
+
+
 def series_agrees(rep, meta, arr, tbobj, p, res):
     from spatialpandas import GeoSeries
     r, exc, unchanged = call_impl(arr, tbobj, p, via='series')
@@ -806,6 +941,8 @@ def replay(rep, rp):
         check_cells(rep, meta, bounds, tbvals, p, res, 'replay', mask)
         invariance(rep, rep.rng, meta, arr, tbobj, vals, p, res)
         series_agrees(rep, meta, arr, tbobj, p, res)
+        if tbobj is None:
+            sindex_history(rep, rep.rng, meta, arr, p)
         for _ in range(6):
             translation(rep, rep.rng, meta, kind, st, els, desc, bounds, tbobj, vals, p, res, mask)
         for f in SEQ_FORMS:
